@@ -98,6 +98,28 @@ def run_cases(ctx, worlds_cases, par=300, timeout=3000):
         raise vlib.InfraError("classify driver died:\n" + res["out"][-4000:])
     if not any(r.get("kind") == "summary" for r in rows):
         raise vlib.InfraError("classify driver did not finish:\n" + res["out"][-3000:])
+    # secondary invariant (connStats state machine of cmd/application/conns.go): at quiescence nothing is in flight, every
+    # connection was counted once as new and once as resolved, and the outcome counters add up
+    matched_total = sum(1 for r in rows if "case" in r and r["final"].get("matched"))
+    cs = [r for r in rows if r.get("kind") == "connstats"]
+    tot = {"cases": 0, "found": 0}
+    for c in cs:
+        n = c["cases"]
+        tot["cases"] += n
+        tot["found"] += c["outcomes"]["found"]
+        problems = []
+        if any(v != 0 for v in c["in_flight"].values()):
+            problems.append("in-flight states not zero at quiescence: %s" % c["in_flight"])
+        if c["new"] != n or c["resolved"] != n:
+            problems.append("new=%d resolved=%d for %d connections" % (c["new"], c["resolved"], n))
+        if sum(c["outcomes"].values()) != n:
+            problems.append("outcome counters %s do not add up to %d" % (c["outcomes"], n))
+        for pr in problems:
+            ctx.violation("connstats:%s" % pr.split(":")[0].split("=")[0].replace(" ", "-"),
+                          "connection statistics do not balance after a batch of %d connections: %s" % (n, pr), c)
+    if cs and tot["found"] != matched_total:
+        ctx.violation("connstats:found-count", "statistics count %d found connections, %d were matched" % (tot["found"], matched_total), {"stats": cs})
+    ctx.stage("C", connstats_batches=len(cs))
     out = []
     for r in rows:
         if "case" in r:
